@@ -5,6 +5,7 @@
 #include <sched.h>
 #include <sys/mman.h>
 #include <unistd.h>
+#include <link.h>
 
 __thread pv_world* pv_w;
 __thread int pv_in_lib;
@@ -102,16 +103,24 @@ static void stub_memzero(int tag, void* const ptr, const size_t len) {
 static size_t stub_nfc(int tag, const char* str, polyseed_str norm) {
     STUB_ENTER;
     pv_event* e = new_event(w, PV_EV_NFC, tag);
+    size_t inlen = strlen(str);
+    /* a conforming normaliser may write its output buffer before it has finished reading its input (nothing in the
+     * header promises that str and norm may alias): the whole buffer is clobbered first */
+    if ((const char*)norm + POLYSEED_STR_SIZE <= str || str + inlen + 1 <= (const char*)norm) memset(norm, 0xDD, POLYSEED_STR_SIZE);
+    else { w->aliased_norm_calls++; memset(norm, 0xDD, POLYSEED_STR_SIZE); }
     size_t n = pv_dep_nfc(str, norm);
-    if (e) { e->ptr = str; e->len = strlen(str); e->b = n; }
+    if (e) { e->ptr = str; e->len = inlen; e->b = n; }
     STUB_LEAVE;
     return n;
 }
 static size_t stub_nfkd(int tag, const char* str, polyseed_str norm) {
     STUB_ENTER;
     pv_event* e = new_event(w, PV_EV_NFKD, tag);
+    size_t inlen = strlen(str);
+    if ((const char*)norm + POLYSEED_STR_SIZE <= str || str + inlen + 1 <= (const char*)norm) memset(norm, 0xDD, POLYSEED_STR_SIZE);
+    else { w->aliased_norm_calls++; memset(norm, 0xDD, POLYSEED_STR_SIZE); }
     size_t n = pv_dep_nfkd(str, norm);
-    if (e) { e->ptr = str; e->len = strlen(str); e->b = n; }
+    if (e) { e->ptr = str; e->len = inlen; e->b = n; }
     STUB_LEAVE;
     return n;
 }
@@ -418,3 +427,78 @@ bool pv_gen_ambiguous(pv_rng* r, int a, int b, unsigned coin, unsigned enabled, 
     fails[a][b]++;
     return false;
 }
+
+/* ------------------------------------------------------------------ static-storage monitor */
+typedef struct srange { uint8_t* lo; size_t len; char obj[48]; char sec[16]; bool tls; size_t tls_off; uint8_t* snap; } srange;
+static srange sr[128]; static int nsr; static size_t static_skipped_bytes;
+static uintptr_t exe_base; static size_t tls_memsz, tls_align, tls_vaddr; static bool have_tls;
+static int phdr_cb(struct dl_phdr_info* info, size_t size, void* data) {
+    (void)size; (void)data;
+    if (exe_base == (uintptr_t)-1) {          /* first entry = the main executable */
+        exe_base = info->dlpi_addr;
+        for (int i = 0; i < info->dlpi_phnum; ++i) if (info->dlpi_phdr[i].p_type == PT_TLS) { tls_memsz = info->dlpi_phdr[i].p_memsz; tls_align = info->dlpi_phdr[i].p_align; tls_vaddr = info->dlpi_phdr[i].p_vaddr; have_tls = true; }
+    }
+    return 0;
+}
+static uint8_t* tls_addr(size_t off) {
+    /* x86-64 variant II static TLS: the executable's block ends at the thread pointer */
+    if (!have_tls) return NULL;
+    size_t a = tls_align ? tls_align : 1; size_t blk = (tls_memsz + a - 1) / a * a;
+    return (uint8_t*)__builtin_thread_pointer() - blk + off;
+}
+int pv_static_init(void) {
+    const char* path = getenv("PV_LINKMAP");
+    nsr = 0;
+    if (!path) return 0;
+    FILE* f = fopen(path, "r");
+    if (!f) return 0;
+    exe_base = (uintptr_t)-1; dl_iterate_phdr(phdr_cb, NULL);
+    char line[4096], pending[64] = "";
+    while (fgets(line, sizeof line, f)) {
+        char sec[128]; unsigned long long addr, len; char obj[2048];
+        int n = sscanf(line, " %127s 0x%llx 0x%llx %2047s", sec, &addr, &len, obj);
+        if (n == 1 && sec[0] == '.') { snprintf(pending, sizeof pending, "%.60s", sec); continue; }        /* long section name: address on the next line */
+        if (n != 4) { n = sscanf(line, " 0x%llx 0x%llx %2047s", &addr, &len, obj); if (n == 3 && pending[0]) { snprintf(sec, sizeof sec, "%s", pending); n = 4; } }
+        pending[0] = 0;
+        if (n != 4 || len == 0) continue;
+        const char* base = strrchr(obj, '/'); base = base ? base + 1 : obj;
+        if (strncmp(base, "lib_", 4)) continue;
+        bool data = !strcmp(sec, ".data") || !strncmp(sec, ".data.", 6), bss = !strcmp(sec, ".bss") || !strncmp(sec, ".bss.", 5);
+        bool tls = !strcmp(sec, ".tbss") || !strncmp(sec, ".tbss.", 6) || !strcmp(sec, ".tdata") || !strncmp(sec, ".tdata.", 7);
+        if (!strncmp(sec, ".data.rel.ro", 12)) continue;                              /* constant after relocation (word tables) */
+        if (!(data || bss || tls) || nsr >= 128) continue;
+        if (len > 16384) { static_skipped_bytes += (size_t)len; continue; }          /* relocated constant tables (word-pointer arrays, sanitizer metadata): far too large for per-call comparison and never scratch space */
+        srange* r = &sr[nsr++];
+        memset(r, 0, sizeof *r);
+        snprintf(r->obj, sizeof r->obj, "%.47s", base); snprintf(r->sec, sizeof r->sec, "%.15s", sec);
+        r->len = (size_t)len; r->tls = tls;
+        if (tls) { if (!have_tls || addr < tls_vaddr || addr - tls_vaddr + len > tls_memsz) { --nsr; continue; } r->tls_off = (size_t)(addr - tls_vaddr); }
+        else r->lo = (uint8_t*)(exe_base + (uintptr_t)addr);
+        r->snap = malloc(r->len);
+    }
+    fclose(f);
+    return nsr;
+}
+static uint8_t* range_ptr(const srange* r) { return r->tls ? tls_addr(r->tls_off) : r->lo; }
+/* plain byte loops / memcmp on purpose: the ranges include sanitizer red zones between globals */
+__attribute__((no_sanitize("address")))
+static bool range_equal(const uint8_t* p, const uint8_t* q, size_t n) {
+    size_t i = 0;
+    for (; i + 8 <= n; i += 8) { uint64_t a, b; __builtin_memcpy(&a, p + i, 8); __builtin_memcpy(&b, q + i, 8); if (a != b) return false; }
+    for (; i < n; ++i) if (p[i] != q[i]) return false;
+    return true;
+}
+uint64_t pv_static_digest(void) {           /* 0 = unchanged since the last snapshot, otherwise 1 + index of the first changed range */
+    for (int i = 0; i < nsr; ++i) { const uint8_t* p = range_ptr(&sr[i]); if (p && sr[i].snap && !range_equal(p, sr[i].snap, sr[i].len)) return (uint64_t)i + 1; }
+    return 0;
+}
+__attribute__((no_sanitize("address")))
+void pv_static_snapshot(void) { for (int i = 0; i < nsr; ++i) { const uint8_t* p = range_ptr(&sr[i]); if (p && sr[i].snap) for (size_t k = 0; k < sr[i].len; ++k) sr[i].snap[k] = p[k]; } }
+__attribute__((no_sanitize("address")))
+const char* pv_static_diff(void) {
+    static __thread char msg[200];
+    for (int i = 0; i < nsr; ++i) { const uint8_t* p = range_ptr(&sr[i]); if (!p || !sr[i].snap) continue;
+        for (size_t k = 0; k < sr[i].len; ++k) if (p[k] != sr[i].snap[k]) { snprintf(msg, sizeof msg, "%s %s+%zu (%zu-byte %s range)", sr[i].obj, sr[i].sec, k, sr[i].len, sr[i].tls ? "thread-local" : "static"); return msg; } }
+    return "(no difference found)";
+}
+
